@@ -41,16 +41,40 @@ def clause_stmt(cl):
     raise ValueError(k)
 
 
+def aux_entries(case):
+    """the auxiliaries of a case: [{"hosts": [frame names], "as": None | "mine" | tag, "name": framer name at run time}].
+    case["aux"] is one auxiliary framer x; case["aux"]["more"] hosts further uses of the same framer: for a moot, a second
+    clone under another frame; for an ordinary aux, the same original under a frame outside the first host's outline."""
+    aux = case.get("aux")
+    if not aux:
+        return []
+    uses = [{"host": aux["host"], "as": aux.get("as")}] + list(aux.get("more") or [])
+    if not aux.get("as"):
+        return [{"hosts": [u["host"] for u in uses], "as": None, "name": "x"}]
+    order = [f["name"] for f in case["frames"]]
+    out, nmine = [], 0
+    for u in sorted(uses, key=lambda u: order.index(u["host"])):       # insular tags count in declaration order
+        if u["as"] == "mine":
+            nmine += 1
+            name = "f_x%d" % nmine
+        else:
+            name = "f_%s" % u["as"]
+        out.append({"hosts": [u["host"]], "as": u["as"], "name": name})
+    return out
+
+
 def build_prog(case):
     frames = []
     aux = case.get("aux")
+    uses = ([{"host": aux["host"], "as": aux.get("as")}] + list(aux.get("more") or [])) if aux else []
     for f in case["frames"]:
         st = [P.rec(f["name"] + ".pre", "precur"), P.rec(f["name"] + ".en", "enter")]
-        if aux and aux["host"] == f["name"]:
-            a = {"v": "aux", "aux": "x"}
-            if aux.get("as"):
-                a["as"] = aux["as"]
-            st.append(a)
+        for u in uses:
+            if u["host"] == f["name"]:
+                a = {"v": "aux", "aux": "x"}
+                if u.get("as"):
+                    a["as"] = u["as"]
+                st.append(a)
         st += [clause_stmt(cl) for cl in f["clauses"]]
         frames.append(P.frame(f["name"], st, over=f.get("over"), next=f.get("next")))
     framers = [P.framer("f", frames, period=case.get("fperiod"))]
@@ -182,38 +206,51 @@ def check_case(ctx, case):
     framers = prog["houses"][0]["framers"]
     F = Clock(P.Static(framers[0]), {f["name"]: f["clauses"] for f in case["frames"]}, "f")
     aux = case.get("aux")
-    A = Clock(P.Static(framers[1]), {f["name"]: f["clauses"] for f in aux["frames"]}, "x") if aux else None
-    host = aux["host"] if aux else None
+    entries = aux_entries(case)
+    for en_ in entries:
+        en_["clock"] = Clock(P.Static(framers[1]), {f["name"]: f["clauses"] for f in aux["frames"]}, "x")
     wit = lambda extra=None: {"program": text, "P": case["P"], "detail": extra}
     exact = dyadic(Pf)
     status = "stopped"
+    known = set(["f"] + [e_["name"] for e_ in entries])
     for s in res.sends:
         if s["caller"] != "run" or s["tasker"] != "f":
             continue
         k = s["tick"]
         evs = res.trace[s["seq"]:s.get("seq_end", s["seq"])]
         fe = [e for e in evs if e["framer"] == "f"]
-        # the auxiliary (plain: framer x; clone: f_x1 / f_<tag>) acts inside its main framer's run: what it does before the
-        # main framer's first enter event of this run is its own evaluation, what comes after is its (re)entry with the host
+        stray = [e["framer"] for e in evs if e["framer"] not in known]
+        if stray:
+            ctx.inconclusive_case("events of a framer the harness does not know: %s" % sorted(set(stray)))
+            return
+        # an auxiliary (plain: framer x; clone: f_x1, f_x2 / f_<tag>) acts inside its main framer's run: what it does before
+        # the main framer's first enter event of this run is its own evaluation, what comes after is its (re)entry with the host
         cut = next((i for i, e in enumerate(evs) if e["framer"] == "f" and e["ctx"] == "enter"), len(evs))
-        ae_eval = [e for e in evs[:cut] if e["framer"] != "f"]
-        ae_after = [e for e in evs[cut:] if e["framer"] != "f"]
         entered = [e["frame"] for e in fe if e["ctx"] == "enter"]
         if s["control"] == "start" and status == "stopped":
             F.enter_first(k)
             status = "started"
             ctx.check(entered == F.S.outline(F.active), "start-enter-outline", "start entered %s, outline is %s" % (entered, F.S.outline(F.active)), wit)
-            if A is not None and host in F.S.outline(F.active):
-                A.enter_first(k)
-                got = [e["frame"] for e in ae_after if e["ctx"] == "enter"]
-                ctx.check(got == A.S.outline(A.active), "aux/enter-outline-with-host", "aux entered %s with its host frame, outline is %s" % (
-                    got, A.S.outline(A.active)), wit)
+            for en_ in entries:
+                A = en_["clock"]
+                if any(h in F.S.outline(F.active) for h in en_["hosts"]):
+                    A.enter_first(k)
+                    got = [e["frame"] for e in evs[cut:] if e["framer"] == en_["name"] and e["ctx"] == "enter"]
+                    ctx.check(got == A.S.outline(A.active), "aux/enter-outline-with-host", "aux entered %s with its host frame, outline is %s" % (
+                        got, A.S.outline(A.active)), wit)
             continue
         if s["control"] != "run" or status not in ("started", "running"):
             continue
         status = "running"
         ctx.event(len(evs))
-        if A is not None:
+        alive = [en_ for en_ in entries if en_["clock"].active is not None]
+        if len(alive) >= 2:
+            ctx.hit("evaluations_with_two_clones_alive")
+            if len(set(en_["clock"].c for en_ in alive)) >= 2:
+                ctx.hit("evaluations_with_two_clones_entered_at_different_times")
+        for en_ in entries:
+            A = en_["clock"]
+            ae_eval = [e for e in evs[:cut] if e["framer"] == en_["name"]]
             if A.active is not None:
                 ctx.hit("aux_evaluations")
                 if evaluate(ctx, A, k, ae_eval, Pf, exact, case, wit) == "stop":
@@ -223,24 +260,31 @@ def check_case(ctx, case):
         r = evaluate(ctx, F, k, fe, Pf, exact, case, wit)
         if r == "stop":
             return
-        if r is not None and A is not None:
+        if r is not None:
             ex, en, rx = r
-            if host in ex:
-                A.active = None
-            if host in en:
-                A.enter_first(k)
-                ctx.hit("aux_reentered_with_host")
-                got = [e["frame"] for e in ae_after if e["ctx"] == "enter"]
-                ctx.check(got == A.S.outline(A.active), "aux/enter-outline-with-host", "aux entered %s with its host frame, outline is %s" % (
-                    got, A.S.outline(A.active)), wit)
-            elif host in rx and A.active is not None:
-                ctx.hit("host_kept_across_main_transition")
+            for en_ in entries:
+                A = en_["clock"]
+                was = A.active is not None
+                if any(h in ex for h in en_["hosts"]):
+                    A.active = None
+                if any(h in en for h in en_["hosts"]):
+                    A.enter_first(k)
+                    ctx.hit("aux_reentered_with_host")
+                    if len(en_["hosts"]) > 1 and was:
+                        ctx.hit("original_aux_handed_to_the_next_frame")
+                    got = [e["frame"] for e in evs[cut:] if e["framer"] == en_["name"] and e["ctx"] == "enter"]
+                    ctx.check(got == A.S.outline(A.active), "aux/enter-outline-with-host", "aux entered %s with its host frame, outline is %s" % (
+                        got, A.S.outline(A.active)), wit)
+                elif any(h in rx for h in en_["hosts"]) and A.active is not None:
+                    ctx.hit("host_kept_across_main_transition")
     # active frame agreement at the end
     fin = res.ticks[-1]["framers"].get("f") if res.ticks and res.ticks[-1]["framers"] else None
     if fin and fin["status"] in ("started", "running"):
         ctx.check(fin["active"] == F.active, "active-frame-differs", "last tick: active %s, model %s" % (fin["active"], F.active), wit)
     if aux:
         ctx.hit("cases_with_" + ("clone_aux" if aux.get("as") else "plain_aux"))
+        if aux.get("more"):
+            ctx.hit("cases_with_" + ("two_clones_of_one_moot" if aux.get("as") else "one_original_aux_under_two_frames"))
     ctx.case(text, nontrivial=(F.ntrans >= 2 and F.nevals >= 5),
              sample={"P": case["P"], "frames": case["frames"], "transitions": F.ntrans, "evaluations": F.nevals} if F.ntrans >= 2 else None)
 
@@ -304,6 +348,24 @@ def gen_random(rng, Pstr):
         aframes.append({"name": "xfin", "over": None, "next": "xfin", "clauses": []})
         case["aux"] = {"host": rng.choice([f["name"] for f in frames if f["name"] != "fin"] or ["fin"]),
                        "as": rng.choice([None, "mine", "k"]), "frames": aframes}
+        # a second use of the same framer x under another frame (drawn from a generator of its own so that the cases
+        # above stay what they were): a second clone of the moot -- alive beside the first one, entered at other times --
+        # or the same original aux under a frame outside the first host's outline, e.g. the frame a timeout leads to
+        import random as _random
+        r2 = _random.Random(repr(case))
+        if r2.random() < 0.6:
+            over = {f["name"]: f.get("over") for f in frames}
+            h1 = case["aux"]["host"]
+            related = lambda a, b: a == b or over.get(a) == b or over.get(b) == a
+            cands = [f["name"] for f in frames if f["name"] != "fin" and f["name"] != h1 and
+                     (case["aux"]["as"] or not related(f["name"], h1))]
+            if cands:
+                a1 = case["aux"]["as"]
+                a2 = None if a1 is None else r2.choice(["mine", "k2"] if a1 == "mine" else ["k2", "mine"])
+                # prefer a neighbour in the frame order (the next frame of a timeout / repeat)
+                order = [f["name"] for f in frames]
+                near = [c for c in cands if abs(order.index(c) - order.index(h1)) == 1]
+                case["aux"]["more"] = [{"host": r2.choice(near) if near and r2.random() < 0.6 else r2.choice(cands), "as": a2}]
     return case
 
 
@@ -321,13 +383,15 @@ def run(ctx):
                 {"name": "b", "clauses": [{"k": "go_re", "n": n, "far": "a"}]},
             ]})
     ctx.extra["grid_cases"] = len(cases)
-    for i in range(ctx.pick(400, 40000)):
+    for i in range(ctx.pick(700, 40000)):
         cases.append(gen_random(ctx.rng, ctx.rng.choice(TICKS)))
     n = 16
     ctx.shard([{"cases": cases[i::n]} for i in range(n)], timeout=ctx.pick(200, 1500))
     ctx.floor("clock_evaluations", 3000)
     ctx.floor("fired_timeout", 100)
     ctx.floor("fired_repeat", 100)
+    ctx.floor("evaluations_with_two_clones_entered_at_different_times", 10)
+    ctx.floor("original_aux_handed_to_the_next_frame", 10)
     ctx.floor("fired_go_el", 50)
     ctx.floor("fired_go_re", 50)
     ctx.floor("forced_reentry", 20)
